@@ -75,6 +75,16 @@ var c02Operands = []opnd{
 	{"list-nested", func() *gt.T { return gt.List(gt.List(gt.Int(1)), gt.Float(1)) }, nil, false},
 	{"map-empty", func() *gt.T { return gt.Map() }, nil, false},
 	{"map-a", func() *gt.T { return gt.Map(gt.Str("a"), gt.Int(1)) }, nil, false},
+	// containers that differ only in a key, a nil, an element type or nesting
+	{"map-a-nil", func() *gt.T { return gt.Map(gt.Str("a"), gt.Nil()) }, nil, false},
+	{"map-b-nil", func() *gt.T { return gt.Map(gt.Str("b"), gt.Nil()) }, nil, false},
+	{"map-a-nil-x", func() *gt.T { return gt.Map(gt.Str("a"), gt.Nil(), gt.Str("x"), gt.Int(1)) }, nil, false},
+	{"map-x-b", func() *gt.T { return gt.Map(gt.Str("x"), gt.Int(1), gt.Str("b"), gt.Int(2)) }, nil, false},
+	{"list-map-a-nil", func() *gt.T { return gt.List(gt.Int(1), gt.Map(gt.Str("a"), gt.Nil())) }, nil, false},
+	{"list-map-b-7", func() *gt.T { return gt.List(gt.Int(1), gt.Map(gt.Str("b"), gt.Int(7))) }, nil, false},
+	{"list-nil", func() *gt.T { return gt.List(gt.Nil()) }, nil, false},
+	{"list-1.0", func() *gt.T { return gt.List(gt.Float(1)) }, nil, false},
+	{"list-list-empty", func() *gt.T { return gt.List(gt.List()) }, nil, false},
 }
 
 var c02Compound = []string{"+=", "-=", "*=", "/=", "%="}
